@@ -218,9 +218,11 @@ UNDECIDED = {
             'py_stringmatching tokenizers and measures', 'Cython path (not built, not parsed)'],
     'C02': ['the value the py_stringmatching measure returns', 'Cython path'],
     'C03': ['count-filter bound over q-gram bags', 'Levenshtein implementation', 'Cython path'],
-    'C04': ['prefix-filter lemma', "suffix filter: only the budget and window necessary conditions (R-SUFFIX) are decided; "
-            "that the recursive estimate (_est_hamming_dist_lower_bound, _binary_search) is a valid lower bound of the "
-            "suffixes' Hamming distance is algorithmic: undecided", 'Cython path'],
+    'C04': ['prefix-filter lemma', "suffix filter: R-SUFFIX decides the budget, the window, the rejections and parts of "
+            "_partition, the position search, the first estimate, and that every value the estimator returns (and every "
+            "budget it hands down) has the form of a sum of valid lower bounds; the underlying facts H(l,r) >= H(l_l,r_l) + "
+            "H(l_r,r_r) + diff and H(x,y) >= ||x|-|y|| for token lists ordered by one global order are the algorithm's "
+            "lemma and are taken as given", 'Cython path'],
     'C05': ['pandas itertuples/zip semantics (trusted)', 'what sim_function returns'],
     'C06': ['that counting postings equals set overlap for bag tokenizers (excluded by the property)'],
     'C08': ['pandas isnull/dropna semantics (trusted)'],
